@@ -17,7 +17,8 @@ Reset == /\ IsEvent("Reset") /\ s' = New(Cur.ceiling) /\ op' = [kind |-> "none"]
 
 Op == /\ IsEvent("Op") /\ op' = Cur /\ UNCHANGED <<s, live, nsteps, mism>>
 
-Fits(o) == o.kind # "fb" \/ (o.recv <= 1000000000 /\ o.ora_init <= 1000000000 /\ o.ora_xbps <= 1999999999 /\ o.ora_lossinit <= 1000000000)
+\* values the 32-bit model cannot tell apart from saturated ones end the comparison for the rest of the run
+Fits(o) == o.kind # "fb" \/ s.mode = 0 \/ (o.recv <= 1000000000 /\ o.ora_init <= 1000000000 /\ o.ora_lossinit <= 1000000000 /\ (s.mode = 2 => o.ora_xbps <= 1999999999))
 
 State ==
     /\ IsEvent("State")
